@@ -1,9 +1,12 @@
 /-
 C19 — executable model of `pkg/trait/electricpb` `Model` (model.go) and of the mode-related RPCs of
 `ModelServer` (model_server.go: UpdateActiveMode, ClearActiveMode; memory_settings.go: CreateMode,
-UpdateMode, DeleteMode), after the three `fix:` commits for C19 (see known_findings/C19.json), including the
-Model-level write options of `UpdateMode` / `DeleteMode` (`WithCreateIfAbsent`, `WithExpectAbsent`,
-`WithExpectedValue`; `WOpts`) and the checks the construction makes on `WithInitialMode` (`St.config?`).
+UpdateMode, DeleteMode), after the `fix:` commits 6953a94, 7f1dc6a, 2b5cf2c and eb62186 (UpdateMode refuses the
+empty id), including the Model-level write options of `UpdateMode` / `DeleteMode` (`WOpts`: `WithCreateIfAbsent`,
+`WithExpectAbsent`, `WithExpectedValue`, and — round 5 — the caller's own code `InterceptBefore` /
+`InterceptAfter` / `WithExpectedCheck` as arbitrary functions plus `WithResetMask`, in the order
+`WriteRequest.changeFn` uses them, the record being stored under the KEY the call read before any callback ran)
+and the checks the construction makes on `WithInitialMode` (`St.config?`).
 
 The model is sequential: every mutator of `Model` holds `Model.mu` for its whole body, so a concurrent
 mix is an interleaving of whole operations (`Conc.lean`).  `resource.Collection` / `resource.Value` are
@@ -26,6 +29,7 @@ inductive Code where
   | alreadyExists
   | failedPrecondition
   | aborted
+  | internal
   deriving DecidableEq, Repr
 
 def Code.name : Code → String
@@ -34,6 +38,7 @@ def Code.name : Code → String
   | .alreadyExists => "AlreadyExists"
   | .failedPrecondition => "FailedPrecondition"
   | .aborted => "Aborted"
+  | .internal => "Internal"
 
 structure Mode where
   id : String
@@ -138,7 +143,9 @@ def writesNormal : Option Mask → Bool
   | some mask => Field.normal ∈ mask.paths
 
 /-- The Model-level write options `UpdateMode` / `DeleteMode` hand through to the collection, beyond the
-update mask and allow-missing (the servers never pass them). -/
+update mask and allow-missing (the servers never pass them).  The interceptors and the check are the caller's
+own code: arbitrary functions (the theorems quantify over them; the driver and the harness share a small
+named family, `Drv.lean`). -/
 structure WOpts where
   /-- `resource.WithCreateIfAbsent()`: the update is an upsert -/
   createIfAbsent : Bool := false
@@ -146,7 +153,15 @@ structure WOpts where
   expectAbsent : Bool := false
   /-- `resource.WithExpectedValue(m)` -/
   expected : Option Mode := none
-  deriving DecidableEq, Repr
+  /-- `resource.WithResetMask(mask)`: fields cleared from the merged value (after InterceptBefore and the merge,
+  before InterceptAfter) -/
+  reset : Option Mask := none
+  /-- `resource.WithExpectedCheck(fn)`: `fn current` = the error it returns, if any -/
+  check : Option (Mode → Option Code) := none
+  /-- `resource.InterceptBefore(f)`: `f old msg` is what the callback leaves in the caller's message -/
+  before : Option (Mode → Mode → Mode) := none
+  /-- `resource.InterceptAfter(g)`: `g old merged` is what the callback leaves in the value about to be saved -/
+  after : Option (Mode → Mode → Mode) := none
 
 /-- `resource.WithMoreUpdatePaths("id")` (added by `updateMode` after the caller's options): a nil mask
 stays nil (it writes every field anyway), any other mask also names `id`. -/
@@ -160,6 +175,44 @@ def expectedFails (expected : Option Mode) (current : Mode) : Bool :=
   match expected with
   | none => false
   | some e => e != current
+
+/-- `FieldUpdater.reset`: the fields the reset mask names are cleared from the merged value -/
+def resetMode (m : Mode) : Option Mask → Mode
+  | none => m
+  | some k =>
+    { id := if Field.id ∈ k.paths then "" else m.id
+      title := if Field.title ∈ k.paths then "" else m.title
+      normal := if Field.normal ∈ k.paths then false else m.normal
+      start := if Field.start ∈ k.paths then none else m.start
+      description := if Field.description ∈ k.paths then "" else m.description
+      voltage := if Field.voltage ∈ k.paths then 0 else m.voltage
+      segments := if Field.segments ∈ k.paths then [] else m.segments }
+
+/-- an optional interceptor applied to (old, new) -/
+def applyIcpt (f : Option (Mode → Mode → Mode)) (old new : Mode) : Mode :=
+  match f with
+  | none => new
+  | some g => g old new
+
+/-- `WriteRequest.changeFn` after its preconditions: InterceptBefore on the caller's message, `FieldUpdater.Merge`
+under the update mask (which `updateMode` has extended by `id`), the reset mask, InterceptAfter. -/
+def written (old m : Mode) (mask : Option Mask) (w : WOpts) : Mode :=
+  applyIcpt w.after old (resetMode (mergeMode old (applyIcpt w.before old m) (maskWithId mask)) w.reset)
+
+/-- `WithExpectedCheck`: the error the caller's check returns for the current value -/
+def checkFails (w : WOpts) (current : Mode) : Option Code :=
+  match w.check with
+  | none => none
+  | some f => f current
+
+/-- the collection stores a record under the KEY of the call (`mode.Id` as `updateMode` read it before any
+interceptor ran), whatever id the record carries: replace the record stored under `key` -/
+def storeAt (key : String) (m : Mode) (l : List Mode) : List Mode := l.map (fun x => if x.id = key then m else x)
+
+/-- … and insert a new record at the position of `key` in the listing -/
+def insertAt (key : String) (m : Mode) : List Mode → List Mode
+  | [] => [m]
+  | x :: xs => if key < x.id then m :: x :: xs else x :: insertAt key m xs
 
 /-! ### Model operations (model.go) -/
 
@@ -204,7 +257,6 @@ inductive Op where
   | sDelete (id : String) (allowMissing : Bool)
   | sChangeActive (id : String) (now : Nat)            -- UpdateActiveMode
   | sClear (now : Nat)                                 -- ClearActiveMode
-  deriving DecidableEq, Repr
 
 /-- does the update mask mention an unknown field? -/
 def maskInvalid : Option Mask → Bool
@@ -219,25 +271,31 @@ def otherNormal (s : St) (id : String) : Bool :=
 
 def updateMode (s : St) (m : Mode) (mask : Option Mask) (w : WOpts) : St × Res :=
   -- the guard added by the fix 7f1dc6a: becoming normal requires that no other mode is normal
+  -- (evaluated on the caller's message as it is BEFORE any interceptor runs)
   if m.normal ∧ writesNormal mask ∧ otherNormal s m.id then
     (s, .err .alreadyExists)
   else if maskInvalid mask then (s, .err .invalidArgument)                  -- FieldUpdater.Validate
+  else if maskInvalid w.reset then (s, .err .internal)                      -- … "resetMask mentions unknown fields"
   else
     -- modes.Update(mode.Id, mode, opts..., WithMoreUpdatePaths("id"))
     match find s m.id with
     | some old =>
       if w.expectAbsent then (s, .err .alreadyExists)                       -- ExpectAbsentPreconditionFailed
       else if expectedFails w.expected old then (s, .err .failedPrecondition) -- ExpectedValuePreconditionFailed
-      else
-        let new := mergeMode old m (maskWithId mask)     -- (a non-nil mask with no paths changes nothing)
-        ({ s with modes := replaceMode new s.modes }, .ok (some new))
+      else match checkFails w old with
+        | some c => (s, .err c)                                             -- WithExpectedCheck
+        | none =>
+          let new := written old m mask w
+          ({ s with modes := storeAt m.id new s.modes }, .ok (some new))
     | none =>
       if !w.createIfAbsent then (s, .err .notFound)
       else if expectedFails w.expected Mode.blank then (s, .err .failedPrecondition)
-      else
-        -- upsert: the record is created from the blank message; it always carries its id
-        let new := mergeMode Mode.blank m (maskWithId mask)
-        ({ s with modes := insertMode new s.modes }, .ok (some new))
+      else match checkFails w Mode.blank with
+        | some c => (s, .err c)
+        | none =>
+          -- upsert: the record is created from the blank message
+          let new := written Mode.blank m mask w
+          ({ s with modes := insertAt m.id new s.modes }, .ok (some new))
 
 def deleteMode (s : St) (id : String) (allowMissing : Bool) (expected : Option Mode) : St × Res :=
   if id = s.active.id then (s, .err .failedPrecondition)                     -- ErrDeleteActiveMode
@@ -265,7 +323,7 @@ def step (s : St) : Op → St × Res
     else match createOrAdd s m [] with
       | (s', .ok _) => (s', .ok none)
       | r => r
-  | .update m mask w => updateMode s m mask w
+  | .update m mask w => if m.id = "" then (s, .err .notFound) else updateMode s m mask w     -- eb62186: "" names no mode
   | .delete id am ex => deleteMode s id am ex
   | .setActive m => setActive s m
   | .changeActive id now => changeActive s id now
